@@ -16,6 +16,10 @@
 //! addfile    e<x> f<j>   -> ok | err [ItemDeleted|ParentElementLocked]    (Element::add_to_file)
 //! rmfromfile e<x> f<j>   -> ok | err [ItemDeleted|ParentElementLocked]    (Element::remove_from_file)
 //! rmfile     m<k> f<j>   -> ok                                            (AutosarModel::remove_file; no id is reused)
+//! load       m<k> <name-hex> <strict 0|1> <document-hex> -> ok f<j> w<number of warnings> e<new ids in document order> | err
+//!                                                                          (AutosarModel::load_buffer; merges into the model)
+//! setver     f<j> <version-bit> -> ok | err                                (ArxmlFile::set_version)
+//! compat     f<j> <version-bit> -> ok <mask> <A:e<id>:<attr>:<mask> | V:… | E:e<id>:<mask>, …  or ->   (query: check_version_compatibility)
 //! ```
 //! All three are state-changing (a `dump` follows them in the quick tier).  `f<j>` of a removed file stays a valid
 //! (stale) handle.
@@ -132,7 +136,7 @@ fn handle(w: &str, c: char) -> Option<usize> {
 pub fn handle_positions(verb: &str) -> &'static [usize] {
     match verb {
         "remove" | "setref" | "move" | "copy" | "#twin" => &[1, 2],
-        "reset" | "newmodel" | "mkfile" | "sortm" | "lookup" | "refs" | "checkrefs" | "dump" | "rmfile" | "#dup" | "compat" | "setver" => &[],
+        "reset" | "newmodel" | "mkfile" | "sortm" | "lookup" | "refs" | "checkrefs" | "dump" | "rmfile" | "#dup" | "compat" | "setver" | "load" => &[],
         _ => &[1],
     }
 }
@@ -141,7 +145,7 @@ pub fn is_mutating(verb: &str) -> bool {
     matches!(
         verb,
         "reset" | "newmodel" | "mkfile" | "create" | "named" | "remove" | "rename" | "cdata" | "rmcdata" | "instext" | "rmtext" | "setref" | "attr"
-            | "attrs" | "rmattr" | "move" | "copy" | "sort" | "sortm" | "comment" | "addfile" | "rmfromfile" | "rmfile" | "setver"
+            | "attrs" | "rmattr" | "move" | "copy" | "sort" | "sortm" | "comment" | "addfile" | "rmfromfile" | "rmfile" | "setver" | "load"
     )
 }
 
@@ -367,6 +371,35 @@ impl World {
                 let f = self.h_file(w[2])?;
                 m.remove_file(&f);
                 "ok".to_string()
+            }
+            "load" if n == 5 => {
+                let (k, m) = self.h_model(w[1])?;
+                let name = text_of(w[2])?;
+                let strict = w[3] == "1";
+                let text = unhex(w[4])?;
+                match m.load_buffer(&text, name, strict) {
+                    Ok((f, warnings)) => {
+                        self.files.push(f);
+                        let j = self.files.len() - 1;
+                        let mut s = format!("ok f{j} w{}", warnings.len());
+                        let all: Vec<Element> = m.elements_dfs().map(|(_, e)| e).collect();
+                        for e in all {
+                            if !self.ids.contains_key(&e) {
+                                let i = self.reg(&e);
+                                if self.root_id[k].is_none() && matches!(e.parent(), Ok(None)) {
+                                    self.root_id[k] = Some(i);
+                                }
+                                let _ = write!(s, " e{i}");
+                            }
+                        }
+                        s
+                    }
+                    Err(e) => {
+                        let base = errs(&e);
+                        let kind: String = format!("{e:?}").chars().take_while(|c| c.is_alphanumeric()).collect();
+                        if base == "err" { format!("err {kind}") } else { base }
+                    }
+                }
             }
             "setver" if n == 3 => {
                 let f = self.h_file(w[1])?;
@@ -598,6 +631,8 @@ impl Failure {
     }
 }
 
+const SIG_ALIEN_TYPE_LOAD: &str = "c10:copy-move-keeps-element-type-of-source-parent";
+const SIG_PARTIAL_MERGE: &str = "c11:failed-load-partial-merge";
 const SIG_NONTRANSITIVE: &str = "c14:comparison-not-transitive-missing-definition-ref";
 
 /// serialized text of (a duplicate of `top`'s model, sorted at the place of `top`) and of (a duplicate in which every element below
@@ -709,6 +744,8 @@ pub struct Checker {
     emptied: HashSet<usize>,
     /// a file-set trigger of a known family happened earlier in this history: later C10 / file-scoped C03 failures belong to it
     files_sticky: Option<(&'static str, &'static str)>,
+    /// a copy / move brought an element whose type belongs to another parent (known finding c07:copy-move-keeps-element-type-of-source-parent)
+    alien_type: bool,
     /// how often the kind-specific oracles were actually evaluated (statistics)
     pub counts: BTreeMap<&'static str, u64>,
 }
@@ -826,6 +863,7 @@ impl Checker {
             dups: vec![],
             emptied: HashSet::new(),
             files_sticky: None,
+            alien_type: false,
             counts: BTreeMap::new(),
         }
     }
@@ -1232,6 +1270,7 @@ impl Checker {
                                 }
                             }
                             Some(Err(e)) if self.root_decorated(s.k, true) => out.push(Failure::known("C10", SIG_XMLNS_LOAD, format!("file f{j}: after the xmlns / xmlns:xsi / xsi:schemaLocation attribute of <AUTOSAR> was edited, the serialize() output does not load: {e}"))),
+                            Some(Err(e)) if self.alien_type => out.push(Failure::known("C10", SIG_ALIEN_TYPE_LOAD, format!("file f{j}: after a copy / move that brought an element whose type belongs to another parent, the serialize() output does not load: {e}"))),
                             Some(Err(e)) => out.push(Failure::new("C10", "file-load", format!("file f{j}: serialize() output does not load on its own: {e}"))),
                             None => out.push(Failure::new("C10", "file-load", format!("file f{j}: loading the serialize() output panics"))),
                         }
@@ -1408,6 +1447,12 @@ impl Checker {
         self.filter(out)
     }
 
+    /// the generator called the library between two requests (e.g. `serialize()`, which rewrites xsi:schemaLocation of the
+    /// shared root element): take the state as it is now as the reference for the next request
+    pub fn resync(&mut self) {
+        self.last_dump = self.w.dump();
+    }
+
     // ---- one request ----
     pub fn step(&mut self, req: &str) -> (String, Vec<Failure>) {
         let words: Vec<&str> = req.split(' ').collect();
@@ -1554,9 +1599,26 @@ impl Checker {
             }
         }
         if self.on("C11") && ans.starts_with("err") && after != self.last_dump {
-            out.push(Failure::new("C11", verb, format!("`{req}` answers `{ans}` but the dump changed")));
+            let p = after.bytes().zip(self.last_dump.bytes()).take_while(|(x, y)| x == y).count();
+            let cut = |t: &str| -> String { t.chars().skip(p.saturating_sub(40)).take(160).collect() };
+            let short_req: String = req.chars().take(120).collect();
+            let msg = format!("`{short_req}` answers `{ans}` but the dump changed: before ..{} | after ..{}", cut(&self.last_dump), cut(&after));
+            if verb == "load" && ans == "err InvalidFileMerge" {
+                out.push(Failure::known("C11", SIG_PARTIAL_MERGE, msg));
+            } else {
+                out.push(Failure::new("C11", verb, msg));
+            }
         }
         // ---------- state oracles ----------
+        if ok && (verb == "move" || verb == "copy") {
+            if let (Some(p), Some(x)) = (&dest, &subj) {
+                if let Some((t, _)) = p.element_type().find_sub_element(x.element_name(), u32::MAX) {
+                    if t != x.element_type() {
+                        self.alien_type = true;
+                    }
+                }
+            }
+        }
         let files_sig = if ok { files_trigger } else { None }.or(self.files_sticky);
         let snaps = self.traverse();
         self.refresh_live(&snaps);
@@ -2802,6 +2864,86 @@ impl Gen {
         let f = if !mf.is_empty() && (!self.allow_stale_file || self.rng.chance(4, 5)) { mf[self.rng.below(mf.len())] } else { self.rng.below(all.max(1)) };
         self.m(format!("rmfile m0 f{f}"));
     }
+    /// a document derived from one file of the model (some subtrees deleted, some elements added, sometimes relabelled with
+    /// another version) is loaded into the model as a further file: overlapping partial views, merged by load_buffer
+    fn op_load(&mut self) {
+        let mf = self.model_files(0);
+        if mf.is_empty() {
+            return;
+        }
+        // both sides in canonical order: the positional merge of load_buffer duplicates shared elements when sibling kinds
+        // interleave differently (known finding c09:out-of-order-sibling-duplicated), which is not what this operation is after
+        let presort = true;
+        if presort {
+            self.m("sortm m0".to_string());
+        }
+        let f = self.ck.w.files[mf[self.rng.below(mf.len())]].clone();
+        let root = self.ck.w.models[0].root_element();
+        let ndel = self.rng.below(4);
+        let nadd = self.rng.below(3);
+        let picks: Vec<usize> = (0..8).map(|_| self.rng.below(1 << 20)).collect();
+        let relabel = self.rng.chance(1, 4);
+        let newver = crate::specwalk::ALL_VERSIONS[self.rng.below(crate::specwalk::ALL_VERSIONS.len())];
+        let made = catch_unwind(AssertUnwindSafe(|| -> Option<String> {
+            // the whole model as one document (not the view of one file: unkeyed siblings restricted to different files would
+            // be merged by position, known finding c09:unkeyed-sibling-positional-merge); partial views arise by the deletions
+            let _ = f.serialize().ok()?; // sets xsi:schemaLocation of the root element to the version of `f`
+            let text = format!("<?xml version=\"1.0\" encoding=\"utf-8\"?>\n{}", root.serialize());
+            let tmp = AutosarModel::new();
+            let (tf, _) = tmp.load_buffer(text.as_bytes(), "t.arxml", false).ok()?;
+            let mut pi = 0;
+            for _ in 0..ndel {
+                // candidates: packages, package elements and the containers ELEMENTS / AR-PACKAGES themselves (a partial view
+                // that lacks a whole container below a package is accepted by load_buffer)
+                let is_cont = |e: &Element| e.element_name() == ElementName::Elements || e.element_name() == ElementName::ArPackages;
+                let all: Vec<Element> = tmp
+                    .elements_dfs()
+                    .map(|(_, e)| e)
+                    .filter(|e| match e.parent().ok().flatten() {
+                        Some(p) => (is_cont(&p) && e.is_identifiable()) || (is_cont(e) && p.element_name() == ElementName::ArPackage),
+                        None => false,
+                    })
+                    .collect();
+                if all.len() < 2 {
+                    break;
+                }
+                let e = all[picks[pi % 8] % all.len()].clone();
+                pi += 1;
+                if let Ok(Some(p)) = e.parent() {
+                    let _ = p.remove_sub_element(e);
+                }
+            }
+            for _ in 0..nadd {
+                let conts: Vec<Element> = tmp.elements_dfs().map(|(_, e)| e).filter(|e| e.element_name() == ElementName::Elements || e.element_name() == ElementName::ArPackages).collect();
+                if conts.is_empty() {
+                    break;
+                }
+                let c = conts[picks[pi % 8] % conts.len()].clone();
+                pi += 1;
+                let valid: Vec<ElementName> = c.list_valid_sub_elements().into_iter().filter(|v| v.is_named && v.is_allowed).map(|v| v.element_name).collect();
+                if valid.is_empty() {
+                    continue;
+                }
+                let n = valid[picks[pi % 8] % valid.len()];
+                let nm = UNIVERSE[picks[(pi + 1) % 8] % UNIVERSE.len()];
+                pi += 1;
+                let _ = c.create_named_sub_element(n, nm);
+            }
+            if presort {
+                tmp.sort();
+            }
+            let mut out = tf.serialize().ok()?;
+            if relabel {
+                out = out.replace(tf.version().filename(), newver.filename());
+            }
+            Some(out)
+        }));
+        self.ck.resync();
+        let Ok(Some(text)) = made else { return };
+        let j = self.ck.w.files.len();
+        let strict = !relabel && self.rng.chance(1, 2);
+        self.m(format!("load m0 {} {} {}", hx(&format!("l{j}.arxml")), strict as u8, hx(&text)));
+    }
     fn op_mkfile(&mut self) {
         let j = self.ck.w.files.len();
         let name = if self.rng.chance(9, 10) { format!("f{j}.arxml") } else { "f0.arxml".to_string() };
@@ -2816,7 +2958,7 @@ impl Gen {
             Kind::Basic => &[(10, 0), (12, 1), (4, 2), (10, 3), (9, 4), (3, 5), (4, 6), (3, 7), (8, 8), (5, 9), (3, 10), (3, 11), (10, 12), (8, 13), (3, 14), (5, 16)],
             Kind::Sort => &[(8, 0), (12, 1), (3, 2), (10, 3), (8, 4), (2, 5), (2, 6), (2, 7), (5, 8), (4, 9), (2, 10), (2, 11), (8, 12), (6, 13), (4, 14), (16, 15), (6, 16)],
             Kind::Copy => &[(8, 0), (10, 1), (3, 2), (10, 3), (8, 4), (2, 5), (3, 6), (2, 7), (6, 8), (4, 9), (2, 10), (2, 11), (6, 12), (26, 13), (3, 14), (5, 16)],
-            Kind::Files => &[(8, 0), (12, 1), (4, 2), (6, 3), (5, 4), (2, 5), (2, 6), (1, 7), (4, 8), (3, 9), (1, 10), (2, 11), (8, 12), (5, 13), (2, 14), (4, 16), (14, 17), (9, 18), (4, 19), (4, 20)],
+            Kind::Files => &[(8, 0), (12, 1), (4, 2), (6, 3), (5, 4), (2, 5), (2, 6), (1, 7), (4, 8), (3, 9), (1, 10), (2, 11), (8, 12), (5, 13), (2, 14), (4, 16), (14, 17), (9, 18), (4, 19), (4, 20), (7, 21)],
         };
         let total: u32 = table.iter().map(|x| x.0).sum();
         let mut r = self.rng.below(total as usize) as u32;
@@ -2849,6 +2991,7 @@ impl Gen {
             17 => self.op_fileset(true),
             18 => self.op_fileset(false),
             19 => self.op_rmfile(),
+            21 => self.op_load(),
             _ => self.op_mkfile(),
         }
     }
